@@ -460,6 +460,12 @@ class SN:
     def __rmod__(self, o):
         return SN(lift(o)).__mod__(self)
 
+    def __divmod__(self, o):
+        return self.__floordiv__(o), self.__mod__(o)
+
+    def __rdivmod__(self, o):
+        return self.__rfloordiv__(o), self.__rmod__(o)
+
     def __pow__(self, n):
         if isinstance(n, float) and n == 0.5:
             return self.sqrt()
@@ -728,6 +734,9 @@ def _floordiv_int(a, b):
     return z3.If(b > 0, q, z3.If(a == b * q, q, q - 1)) if not (z3.is_int_value(b) and b.as_long() > 0) else q
 
 
+_INF = float('inf')
+
+
 def _defer(fn):
     name = fn.__name__
     iscmp = name in ('__lt__', '__le__', '__gt__', '__ge__', '__eq__', '__ne__')
@@ -740,6 +749,25 @@ def _defer(fn):
             if iscmp:
                 return name == '__ne__'
             return float('nan')
+        if isinstance(o, (float, real_np.floating)) and o in (_INF, -_INF):
+            # an infinite operand next to a finite symbolic value: sums/differences and comparisons are decided by the
+            # sign of the infinity alone; products/quotients would need the sign of the symbolic value
+            pos = o > 0
+            if name in ('__add__', '__radd__', '__rsub__'):
+                return float(o)
+            if name == '__sub__':
+                return -float(o)
+            if name in ('__lt__', '__le__'):
+                return bool(pos)
+            if name in ('__gt__', '__ge__'):
+                return not pos
+            if name == '__eq__':
+                return False
+            if name == '__ne__':
+                return True
+            if name == '__truediv__':
+                return SN(z3.RealVal(0))
+            raise Unsupported('infinite constant in %s with a symbolic value' % name)
         return fn(s, o)
     w.__name__ = name
     return w
